@@ -158,6 +158,7 @@ func workerMain(args []string) {
 			}
 			if keep && o.Class == "" {
 				cj, _ := json.Marshal(c)
+				cj = capSample(cj)
 				sample, _ := json.Marshal(map[string]any{"workload": w.Name, "index": i, "case": json.RawMessage(cj), "event_log": o.Log, "log_hash": o.LogHash})
 				st.Samples[w.Name] = append(st.Samples[w.Name], sample)
 			}
@@ -692,6 +693,7 @@ func checkMain(propID, tier string) int {
 			}
 			if len(res.stats.Samples[w.Name]) < 1 && r.o.Class == "" {
 				cj, _ := json.Marshal(r.c)
+				cj = capSample(cj)
 				sample, _ := json.Marshal(map[string]any{"workload": w.Name, "index": r.i, "case": json.RawMessage(cj), "event_log": r.o.Log})
 				res.stats.Samples[w.Name] = append(res.stats.Samples[w.Name], sample)
 			}
@@ -754,6 +756,16 @@ func checkMain(propID, tier string) int {
 	}
 	fmt.Printf("%s %s: %d cases, %d distinct non-trivial shapes, %d violation(s), %.1fs\n", propID, tier, res.stats.Evaluations, len(res.shapes), nViol, wall)
 	return exit
+}
+
+// capSample keeps evidence files readable: a very large case (a megabyte
+// value, a hundred thousand operations) is shown by its head only.
+func capSample(cj []byte) []byte {
+	if len(cj) <= 16000 {
+		return cj
+	}
+	out, _ := json.Marshal(map[string]any{"truncated_sample": true, "bytes": len(cj), "head": string(cj[:4000])})
+	return out
 }
 
 func firstLine(s string) string {
